@@ -25,6 +25,12 @@ Definition mk_mdib (ds : list (H * descr)) (ss : list (H * state)) (cs : list (H
   mkMdib (of_alist ds) (of_alist ss) (of_alist cs) v (fun _ => None) (fun _ => None) (fun _ => None)
          (map fst ds) (map fst cs).
 
+(* an MDIB that has a past: remembered versions of handles that were removed before the observation starts *)
+Definition mk_mdib_sv (ds : list (H * descr)) (ss : list (H * state)) (cs : list (H * cstate)) (v : Z)
+                      (vd vs vc : list (H * Z)) : mdib :=
+  mkMdib (of_alist ds) (of_alist ss) (of_alist cs) v (of_alist vd) (of_alist vs) (of_alist vc)
+         (map fst ds) (map fst cs).
+
 Definition delta {A} (enc : option A -> list Z) (f g : H -> option A) (u : list H) : list (H * list Z) :=
   flat_map (fun h => if zl_eqb (enc (f h)) (enc (g h)) then [] else [(h, enc (g h))]) u.
 
